@@ -16,6 +16,7 @@ import TsVerif.C06.FieldNamed
 import TsVerif.C06.RangeFlat
 import TsVerif.C06.RangeFlatP
 import TsVerif.C06.EmptyRange
+import TsVerif.C06.Round11
 #print axioms TsVerif.C06.child_spec
 #print axioms TsVerif.C06.flattenKids_length
 #print axioms TsVerif.C06.child_count_spec
@@ -156,3 +157,10 @@ import TsVerif.C06.EmptyRange
 #print axioms TsVerif.C06.vgoE_eq_dfr
 #print axioms TsVerif.C06.ftgo_eq_vgoE
 #print axioms TsVerif.C06.descendant_for_empty_byte_range_ft_spec
+#print axioms TsVerif.C06.posAfter_is_end
+#print axioms TsVerif.C06.dfrPScanE_eq
+#print axioms TsVerif.C06.descendant_for_empty_point_range_port
+#print axioms TsVerif.C06.dfrIdealEP_boundary_partial
+#print axioms TsVerif.C06.dfrIdealEP_eq_bytes
+#print axioms TsVerif.C06.empty_point_range_eq_byte_range
+#print axioms TsVerif.C06.descendant_for_empty_point_range_ft_spec_partial
